@@ -79,7 +79,7 @@ CONTRACT(setup_input)
 static int setup_input(pipe_type *pipe, const uint8_t *data, size_t size)
   REQ("C13/setup_input.size_needs_data", data != NULL || size == 0)
   REQ("C02/setup_input.pipe_is_open_library_pipe", data == NULL || (pipe != NULL && IS_OPEN(*pipe) && IS_LIB(*pipe)))
-  REQ_(data == NULL || (g.in_data == data && g.in_size == size && g.stream_pos == 0 && g.in_fd == -1))
+  REQ_(data == NULL || (gc.in_data == data && gc.in_size == size && g.stream_pos == 0 && g.in_fd == -1))
   ASSIGNS(data != NULL: *pipe; g)
   ENS("C02/setup_input.no_input_no_effect", IMPLIES(data == NULL, RV == 0 && g.os_calls == OLD(g.os_calls) && FD_LEDGER_UNCHANGED))
   ENS("C02/setup_input.all_bytes_written_in_order", IMPLIES(data != NULL && RV == 0, g.stream_pos == size))
@@ -142,7 +142,7 @@ int reproc_pid(reproc_t *process)
   ENS("C14/reproc_pid.is_the_childs_pid", IMPLIES(STARTED0, RV == process->handle && RV == g.child_pid && RV > 0))
   ;
 
-#define PLAN_EXEMPT_EINVAL (g.plan_invalid_at >= 0 && g.plan_pos == g.plan_invalid_at)
+#define PLAN_EXEMPT_EINVAL (gc.plan_invalid_at >= 0 && g.plan_pos == gc.plan_invalid_at)
 
 /* reproc_stop: the OS-level steps are checked one by one by the stop-sequence
    monitor of the OS layer (labels C07/stop.*), armed by the harness with the
@@ -155,9 +155,9 @@ int reproc_stop(reproc_t *process, reproc_stop_actions stop)
   ENS("C14/reproc_stop.invariant_kept", IMPLIES(process != NULL, INV(process) && HANDLE_FIELDS_KEPT_EXCEPT_STATUS_EXIT))
   ENS("C01+C07/reproc_stop.status_iff_reaped", IMPLIES(STARTED0, IMPLIES(RV >= 0, g.child_reaped && g.reaps == 1 && RV == WST_DECODE(g.child_wstatus) && process->status == RV) && IMPLIES(g.child_reaped && !PLAN_EXEMPT_EINVAL, RV >= 0)))
   ENS("C01/reproc_stop.cached_status_is_stable", IMPLIES(EXITED0 && RV >= 0, RV == P0(status)) && IMPLIES(EXITED0, OS_UNTOUCHED && HANDLE_UNCHANGED))
-  ENS("C07/reproc_stop.timeout_iff_every_wait_expired", IMPLIES(RUNNING0 && g.plan_on, IMPLIES(RV == -ETIMEDOUT, !g.child_reaped && g.plan_pos == g.plan_n && g.plan_invalid_at < 0 && g.poll_ret == 0) && IMPLIES(!g.child_reaped && g.plan_pos == g.plan_n && g.plan_n > 0 && g.plan_invalid_at < 0 && g.poll_ret == 0 && g.poll_calls > OLD(g.poll_calls), RV == -ETIMEDOUT)))
-  ENS("C07/reproc_stop.otherwise_error_of_failed_action", IMPLIES(RUNNING0 && g.plan_on && RV < 0 && RV != -ETIMEDOUT, (PLAN_EXEMPT_EINVAL && RV == -EINVAL) || (g.faults > OLD(g.faults) && IMPLIES(OLD(g.faults) == 0, RV == -g.first_errno))))
-  ENS("C07/reproc_stop.out_of_range_action_is_einval", IMPLIES(RUNNING0 && g.plan_on && PLAN_EXEMPT_EINVAL && g.faults == OLD(g.faults) && !g.child_reaped && (g.plan_pos == 0 || g.poll_ret == 0), RV == -EINVAL))
+  ENS("C07/reproc_stop.timeout_iff_every_wait_expired", IMPLIES(RUNNING0 && gc.plan_on, IMPLIES(RV == -ETIMEDOUT, !g.child_reaped && g.plan_pos == gc.plan_n && gc.plan_invalid_at < 0 && g.poll_ret == 0) && IMPLIES(!g.child_reaped && g.plan_pos == gc.plan_n && gc.plan_n > 0 && gc.plan_invalid_at < 0 && g.poll_ret == 0 && g.poll_calls > OLD(g.poll_calls), RV == -ETIMEDOUT)))
+  ENS("C07/reproc_stop.otherwise_error_of_failed_action", IMPLIES(RUNNING0 && gc.plan_on && RV < 0 && RV != -ETIMEDOUT, (PLAN_EXEMPT_EINVAL && RV == -EINVAL) || (g.faults > OLD(g.faults) && IMPLIES(OLD(g.faults) == 0, RV == -g.first_errno))))
+  ENS("C07/reproc_stop.out_of_range_action_is_einval", IMPLIES(RUNNING0 && gc.plan_on && PLAN_EXEMPT_EINVAL && g.faults == OLD(g.faults) && !g.child_reaped && (g.plan_pos == 0 || g.poll_ret == 0), RV == -EINVAL))
   ENS("C05/reproc_stop.closes_only_exit_pipe_once_reaped", g.open == (OLD(g.open) & ~((RUNNING0 && g.child_reaped) ? MASK_OF(P0(pipe.exit)) : 0u)) && g.lib == (OLD(g.lib) & ~((RUNNING0 && g.child_reaped) ? MASK_OF(P0(pipe.exit)) : 0u)))
   ;
 
